@@ -16,7 +16,7 @@ RULE = ("(a) seeded random continua, 2-5 annotators, pooled dissimilarities; (b)
         "again; (f) continua with open-ended units (end = inf: every pair dissimilarity with them is nan, and a nan disorder "
         "is not 'at most' the cut); (g) one dissimilarity object producing the candidates of 4 continua with different category sets "
         "from 4 user threads at once; (h) 3-4 annotators with a cluster of short units near the origin and one 2^17 .. 2^21 away "
-        "(pair values of the order of 1e10 next to values of the order of 1).  Each result is compared with the full enumeration of all index tuples.  Every case "
+        "(pair values of the order of 1e10 next to values of the order of 1); (i) 30 % of the random cases with a label-reading dissimilarity come right after a call, in the same thread, on a continuum that the dissimilarity refuses part-way (an unlabelled or out-of-alphabet unit of a later annotator; M-CAND-AFTER-REFUSAL counts them).  Each result is compared with the full enumeration of all index tuples.  Every case "
         "runs in a default build or a NUMBA_BOUNDSCHECK=1 build (alternating shards; boundary cases in both). "
         "non-trivial = at least 2 candidates expected; distinct by SHA-1 of the case")
 ASSUMPTIONS = [
